@@ -550,6 +550,9 @@ func (env *Env) trCall(x ECall) TV {
 	case "ret":
 		// ret("callee", n): the result of the n-th call to callee in this function
 		key := fmt.Sprintf("%s#%s", args[0].(EStr).Val, args[1].(EInt).Val)
+		if len(args) > 2 {
+			key += "." + args[2].(EInt).Val
+		}
 		if tv, ok := fc.topCtx().siteResults[key]; ok {
 			return tv
 		}
